@@ -794,6 +794,7 @@ func runC18(rc *RunCtx) {
 	w := simrt.NewSimWriteCloser()
 	faultKind := "write"
 	errName := "injected"
+	var controlBytes []byte
 	switch mode {
 	case 1:
 		p = variantPlan(t.Choose(nWriterKinds*2 - 1))
@@ -850,6 +851,14 @@ func runC18(rc *RunCtx) {
 		default:
 			w.FailAt = t.Choose(L + 1)
 		}
+		if w.FailAt >= 0 && t.Choose(4) == 3 {
+			// the failure does not last: the writes that follow are accepted.  Whatever the
+			// writer does about it - give up, or go on - a successful end means that the
+			// endpoint holds exactly the fault-free output
+			w.Transient = true
+			faultKind = "transient write"
+			controlBytes = cw.Bytes()
+		}
 		rc.Probe(fmt.Sprintf("output_size_class_%s", sizeClass(L)))
 		// what the endpoint answers: the simulator's own error, or one of the errors a real
 		// file, pipe or socket gives (a failure is a failure, whatever its errno)
@@ -870,6 +879,9 @@ func runC18(rc *RunCtx) {
 	res := runWriter(rc, p, w)
 	rc.Log("fault at=%d close=%v fired=%v/%v accepted=%d writes=%d closes=%d", w.FailAt, w.FailClose, w.Fired, w.FiredClose, len(w.Buf), w.Writes, w.Closes)
 	fired := w.Fired || w.FiredClose
+	if w.Transient && w.Fired {
+		rc.Fault("write_error_transient")
+	}
 	phase := "close"
 	if w.Fired {
 		rc.Fault("write_error_" + kind + "_" + gz)
@@ -905,6 +917,16 @@ func runC18(rc *RunCtx) {
 	if !fired {
 		// the output ended before the fault offset: nothing was injected; the run is a plain C04 run
 		rc.Probe("fault_never_reached")
+		return
+	}
+	if w.Transient {
+		if bytes.Equal(w.Bytes(), controlBytes) {
+			rc.Probe("transient_fault_survived_with_complete_output")
+			return
+		}
+		rc.Violate(fmt.Sprintf("C18/silent-loss/%s/%s/transient-write-fault", kind, gz),
+			"one write failed (error %s at offset %d, %d bytes of it accepted), the following ones were accepted, and the writer returned normally with an output of %d bytes that is not the %d-byte fault-free output; fatal messages: %q",
+			errName, w.FailAt, 0, len(w.Bytes()), len(controlBytes), res.FatalMsg)
 		return
 	}
 	rc.Violate(fmt.Sprintf("C18/silent-loss/%s/%s/%s", kind, gz, phase),
